@@ -220,6 +220,8 @@ func checkC05(c *runCtx) {
 			specs = append(specs, sp{fmt.Sprintf("1x1 both %s, tieA=%d tieB=%d, full BFS", role, ties[0], ties[1]),
 				pairCfg{KindsA: h1, KindsB: h1, RoleA: role, RoleB: role, TieA: ties[0], TieB: ties[1], Ticks: 2, Drops: 1, Dups: 1, FairMax: 6}})
 		}
+		specs = append(specs, sp{fmt.Sprintf("1x1 both %s, trickled candidates (the conflicting check may come from a not yet signalled address), full BFS under reordering", role),
+			pairCfg{KindsA: h1, KindsB: h1, RoleA: role, RoleB: role, TieA: 5, TieB: 9, Trickle: true, Ticks: 2, FairMax: 6}})
 		specs = append(specs, sp{fmt.Sprintf("2x1 both %s, D<=2", role),
 			pairCfg{KindsA: h2, KindsB: h1, RoleA: role, RoleB: role, TieA: 7, TieB: 3, Ticks: 3, Drops: 2, Dups: 2, Dev: 2, FairMax: 6}})
 		if !c.quick() {
